@@ -58,13 +58,8 @@ where
     E: Engine<U>,
 {
     fn solve(&self, solver: &Solver<U, E>, state: State<U, E>) -> Stream<U, E> {
-        let mut stream = solver.start(&self.first, state.clone());
-
-        // Take only first item from the stream of first goal by truncating the stream
-        match solver.trunc(&mut stream) {
-            Some(_) => Stream::bind(stream, self.rest.clone()),
-            None => solver.start(&self.next, state),
-        }
+        // Only the first answer of the head goal is kept; the head is searched lazily.
+        crate::operator::conda::ClauseHead::stream(solver, &self.first, &self.rest, &self.next, state, true)
     }
 }
 
